@@ -166,7 +166,7 @@ func analyzeFromStdin(cmd *cobra.Command) error {
 	analyzer := NewAnalyzer(outWriter, cmd.ErrOrStderr(), opts)
 
 	// Analyze the stdin content (Analyze accepts string input directly)
-	result, err := analyzer.Analyze(string(content))
+	result, err := analyzer.AnalyzeSQL(content)
 	if err != nil {
 		return err
 	}
